@@ -815,6 +815,7 @@ struct Counting {
     rej: AtomicU64,
     drop: AtomicU64,
     evicted: AtomicU64,
+    read_key_updates: AtomicU64,
 }
 
 macro_rules! count {
@@ -832,6 +833,14 @@ impl event::Subscriber for Counting {
         _meta: &event::api::ConnectionMeta,
         _info: &event::api::ConnectionInfo,
     ) -> Self::ConnectionContext {
+    }
+    fn on_stream_read_key_updated(
+        &self,
+        _context: &Self::ConnectionContext,
+        _meta: &event::api::ConnectionMeta,
+        _event: &event::api::StreamReadKeyUpdated,
+    ) {
+        self.read_key_updates.fetch_add(1, Ordering::Relaxed);
     }
     count!(on_path_secret_map_background_handshake_requested, PathSecretMapBackgroundHandshakeRequested, hs);
     count!(on_path_secret_map_id_entry_evicted, PathSecretMapIdEntryEvicted, evicted);
@@ -882,11 +891,14 @@ fn map_once(input: &[V]) -> Vec<V> {
     let peer_signers: [&[u8]; 2] = [b"signer of peer 0", b"signer of peer 1"];
     let mut ids = vec![];
     let mut sealers = vec![];
-    let mut keep = vec![];
-    for k in 0..2 {
-        let b = new_map(peer_signers[k], false, event::tracing::Subscriber::default());
-        let id = verif_hooks::insert_pair(&a, a_addr, &b, peers[k]);
-        // the peer's end of the shared secret, recovered through the public API
+    let mut peer_of: Vec<usize> = vec![];
+    let peer_maps: Vec<Map> = (0..2)
+        .map(|k| new_map(peer_signers[k], false, event::tracing::Subscriber::default()))
+        .collect();
+    // a handshake with peer k: a fresh secret shared by map A and the peer's map; the peer's end of
+    // it is recovered through the public API
+    let handshake = |k: usize, ids: &mut Vec<Id>, sealers: &mut Vec<_>, peer_of: &mut Vec<usize>| {
+        let id = verif_hooks::insert_pair(&a, a_addr, &peer_maps[k], peers[k]);
         let mut ctl = vec![];
         let (export, cs, _keys, _params) = a
             .secret_for_credentials(
@@ -900,7 +912,10 @@ fn map_once(input: &[V]) -> Vec<V> {
         assert_eq!(*peer_end.id(), id);
         sealers.push(peer_end.control_sealer());
         ids.push(id);
-        keep.push(b);
+        peer_of.push(k);
+    };
+    for k in 0..2 {
+        handshake(k, &mut ids, &mut sealers, &mut peer_of);
     }
     let unknown = Id::from([0xEE; 16]);
     let other_signer = stateless_reset::Signer::new(b"an unrelated signer");
@@ -918,7 +933,14 @@ fn map_once(input: &[V]) -> Vec<V> {
     };
     while !c.done() {
         let op = c.next();
-        let k = (znat(c.next()) % 2) as usize;
+        let karg = znat(c.next());
+        if op == 2 {
+            // re-handshake with the same peer address: a second, newer secret for it
+            handshake((karg % 2) as usize, &mut ids, &mut sealers, &mut peer_of);
+            observe(&mut out);
+            continue;
+        }
+        let k = (karg % ids.len() as u128) as usize;
         if op == 0 {
             match a.seal_once_id(ids[k]) {
                 Some((_, creds, _)) => out.push(creds.key_id.as_u64() as V),
@@ -932,7 +954,8 @@ fn map_once(input: &[V]) -> Vec<V> {
         let val = VarInt::new(znat(c.next()).min(1 << 40) as u64).unwrap();
         let via = c.next();
         let named = if mode == 3 { unknown } else { ids[k] };
-        let signer_k = stateless_reset::Signer::new(peer_signers[k]);
+        let signer_k = stateless_reset::Signer::new(peer_signers[peer_of[k]]);
+        let other = (k + 1) % ids.len();
         let mut buf = [0u8; sc::MAX_PACKET_SIZE];
         let len = {
             let enc = EncoderBuffer::new(&mut buf);
@@ -944,14 +967,14 @@ fn map_once(input: &[V]) -> Vec<V> {
                         .encode(enc, &tag)
                 }
                 1 => sc::StaleKey { credential_id: named, wire_version: WireVersion::ZERO, queue_id: None, min_key_id: val }
-                    .encode(enc, if mode == 2 { &sealers[k ^ 1] } else { &sealers[k] }),
+                    .encode(enc, if mode == 2 { &sealers[other] } else { &sealers[k] }),
                 _ => sc::ReplayDetected {
                     credential_id: named,
                     wire_version: WireVersion::ZERO,
                     queue_id: None,
                     rejected_key_id: val,
                 }
-                .encode(enc, if mode == 2 { &sealers[k ^ 1] } else { &sealers[k] }),
+                .encode(enc, if mode == 2 { &sealers[other] } else { &sealers[k] }),
             }
         };
         match mode {
@@ -967,17 +990,109 @@ fn map_once(input: &[V]) -> Vec<V> {
         if via == 0 {
             use s2n_codec::DecoderParameterizedValueMut;
             let (p, _) = packet::Packet::decode_parameterized_mut(16, DecoderBufferMut::new(bytes)).expect("well formed");
-            a.handle_unexpected_packet(&p, &peers[k]);
+            a.handle_unexpected_packet(&p, &peers[peer_of[k]]);
         } else {
             let (p, _) = sc::Packet::decode(DecoderBufferMut::new(bytes)).expect("well formed");
-            a.handle_control_packet(&p, &peers[k]);
+            a.handle_control_packet(&p, &peers[peer_of[k]]);
         }
         observe(&mut out);
     }
-    drop(keep);
+    drop(peer_maps);
+    out
+}
+
+// ------------------------------------------------------------------------------------------------
+// keys: the receiver's rotating application opener and forged packets
+// ------------------------------------------------------------------------------------------------
+fn keys(input: &[V]) -> Vec<V> {
+    use s2n_quic_dc::{
+        path::secret::verif_hooks,
+        stream::{crypto::Crypto, shared, TransportFeatures},
+    };
+    let mut c = Cur::new(input);
+    let mut out = vec![];
+    let counts = Arc::new(Counting::default());
+    let a = new_map(b"signer of map A", false, event::tracing::Subscriber::default());
+    let b = new_map(b"signer of map B", false, event::tracing::Subscriber::default());
+    let a_addr: SocketAddr = "10.0.0.9:4433".parse().unwrap();
+    let b_addr: SocketAddr = "10.0.0.1:4433".parse().unwrap();
+    let _id = verif_hooks::insert_pair(&a, a_addr, &b, b_addr);
+    let features = TransportFeatures::UDP;
+    // the sending side: locally initiated keys of map A for its peer
+    let (local, _params) = a.get_untracked(b_addr).expect("entry present").pair(&features);
+    let creds = local.credentials;
+    let mut sealer = local.application.sealer;
+    // the receiving side: the matching remote keys of map B, held the way a stream holds them
+    let mut ctl = vec![];
+    let (remote, _params, _app) = b
+        .pair_for_credentials(&creds, None, &features, &mut ctl)
+        .expect("credentials known to the peer");
+    let control = remote.control.map(|c| (c.sealer, c.opener));
+    let crypto = Crypto::new(remote.application.sealer, remote.application.opener, control, &b);
+    let sub = shared::Subscriber { subscriber: counts.clone(), context: () };
+    let clock = s2n_quic_core::time::NoopClock;
+    let sid = stream::Id::unreliable_unidirectional(VarInt::from_u8(3)).unwrap();
+    let mut pn = 0u64;
+    while !c.done() {
+        let op = c.next();
+        if op != 0 && op != 1 {
+            // the peer moves its sealer to the next key generation
+            sealer.update(&clock, &sub);
+            continue;
+        }
+        // an authentic packet of the sender's current generation
+        let payload = ramp(pn as u8, 3, 24);
+        let mut buf = vec![0u8; 512];
+        let len = {
+            let mut reader = FinReader { offset: VarInt::new(pn * 24).unwrap(), payload: &payload, cursor: 0, final_offset: None };
+            stream::encoder::encode(
+                EncoderBuffer::new(&mut buf),
+                None,
+                sid,
+                VarInt::new(pn).unwrap(),
+                VarInt::ZERO,
+                VarInt::ZERO,
+                &mut &[][..],
+                VarInt::ZERO,
+                &(),
+                &mut reader,
+                &sealer,
+                &creds,
+            )
+        };
+        pn += 1;
+        buf.truncate(len);
+        if op == 1 {
+            let pos = (znat(c.next()) % len as u128) as usize;
+            let x = (znat(c.next()) % 255) as u8 + 1;
+            buf[pos] ^= x;
+        }
+        let accepted = match stream::decoder::Packet::decode(DecoderBufferMut::new(&mut buf), (), 16) {
+            Err(_) => false,
+            Ok((mut p, _)) => {
+                let ctl_open = crypto.control_opener().expect("udp features have control keys");
+                // the in-place path of stream/recv (Crypto::open_with rotates the opener when asked to)
+                // ... and, for every other packet, the copying path
+                if pn % 2 == 0 {
+                    let r = crypto.open_with(|opener| p.decrypt_in_place(opener, ctl_open), &clock, &sub);
+                    r.is_ok() && (op == 1 || p.payload() == &payload[..])
+                } else {
+                    let mut clear = vec![0u8; p.payload().len()];
+                    let r = crypto.open_with(
+                        |opener| p.decrypt(opener, ctl_open, s2n_quic_dc::crypto::UninitSlice::new(&mut clear[..])),
+                        &clock,
+                        &sub,
+                    );
+                    r.is_ok() && (op == 1 || clear == payload)
+                }
+            }
+        };
+        out.push(accepted as V);
+        out.push(counts.read_key_updates.load(Ordering::Relaxed) as V);
+    }
     out
 }
 
 fn main() {
-    main_with(&[("sc", sc), ("pkt", pkt), ("map", map)]);
+    main_with(&[("sc", sc), ("pkt", pkt), ("map", map), ("keys", keys)]);
 }
